@@ -532,6 +532,71 @@ func E8Units(c *core.Ctx, r *core.Report) {
 			}
 		})
 	}
+	// … and through local slices of path data: `d := q.d[k:]; cmd := d[0]; switch cmd { case ArcToCmd: … d[3] … }`
+	for _, fd := range core.AllFuncDecls(root) {
+		info := root.TypesInfo
+		local := map[types.Object]bool{}
+		ast.Inspect(fd.Body, func(n ast.Node) bool {
+			if as, ok := n.(*ast.AssignStmt); ok && len(as.Lhs) == 1 && len(as.Rhs) == 1 {
+				if se, ok := core.Unparen(as.Rhs[0]).(*ast.SliceExpr); ok && core.IsPathDataSel(info, se.X) {
+					if id, ok := as.Lhs[0].(*ast.Ident); ok {
+						local[core.ObjOf(info, id)] = true
+					}
+				}
+			}
+			return true
+		})
+		if len(local) == 0 {
+			continue
+		}
+		cmdOf := map[types.Object]types.Object{} // cmd variable -> local slice it was read from at index 0
+		ast.Inspect(fd.Body, func(n ast.Node) bool {
+			if as, ok := n.(*ast.AssignStmt); ok && len(as.Lhs) == 1 && len(as.Rhs) == 1 {
+				if ie, ok := core.Unparen(as.Rhs[0]).(*ast.IndexExpr); ok {
+					if sid, ok := core.Unparen(ie.X).(*ast.Ident); ok && local[core.ObjOf(info, sid)] {
+						if k, ok := core.ConstInt(info, ie.Index); ok && k == 0 {
+							if id, ok := as.Lhs[0].(*ast.Ident); ok {
+								cmdOf[core.ObjOf(info, id)] = core.ObjOf(info, sid)
+							}
+						}
+					}
+				}
+			}
+			return true
+		})
+		ast.Inspect(fd.Body, func(n ast.Node) bool {
+			sw, ok := n.(*ast.SwitchStmt)
+			if !ok || sw.Tag == nil {
+				return true
+			}
+			tid, ok := core.Unparen(sw.Tag).(*ast.Ident)
+			if !ok {
+				return true
+			}
+			sl := cmdOf[core.ObjOf(info, tid)]
+			if sl == nil {
+				return true
+			}
+			for _, st := range sw.Body.List {
+				cc := st.(*ast.CaseClause)
+				ks := core.CaseConsts(info, cc)
+				if len(ks) != 1 || ks[0] != "ArcToCmd" {
+					continue
+				}
+				ast.Inspect(cc, func(m ast.Node) bool {
+					if ie, ok := m.(*ast.IndexExpr); ok {
+						if sid, ok := core.Unparen(ie.X).(*ast.Ident); ok && core.ObjOf(info, sid) == sl {
+							if k, ok := core.ConstInt(info, ie.Index); ok && k == 3 {
+								e.arcSites[ie.Lbrack] = true
+							}
+						}
+					}
+					return true
+				})
+			}
+			return true
+		})
+	}
 	r.Count("E8.arc-slot-sites", len(e.arcSites))
 	var fns []*ssa.Function
 	seen := map[*ssa.Function]bool{}
